@@ -379,6 +379,274 @@ theorem colour_reduce (L R S' : List Run) (e : Nat)
   · rename_i hx
     rw [colourAt_ge_all L p x (fun r hr => by have := (hL r hr).1; omega)]
 
+/-- what follows the recoloured runs `L` in the result (`C`, after an optional re-inserted end `(e, pre)`), in the
+four ways the scanning loop can stop; conclusion: the list `first of L recoloured ++ optional end ++ C` is sorted,
+inside the prefix, and has the colours of `L ++ R` with `[.., e)` recoloured by `lostOf` -/
+theorem loss_tail_ok (size e : Nat) (he : e ≤ size) (L R C : List Run) (nie : Bool)
+    (hL : ∀ r ∈ L, r.1 < e ∧ (r.2 = Colour.flighting ∨ r.2 = Colour.lost))
+    (hsorted : Sorted (L ++ R)) (hsize : ∀ r ∈ L ++ R, r.1 < size)
+    (hcase : (R = [] ∧ C = [] ∧ nie = (decide (e < size) && lastCol L Colour.recved == Colour.flighting)) ∨
+      (∃ o R' R'', R = (o, Colour.recved) :: R' ∧ C = (o, Colour.recved) :: R'' ∧ o < e ∧ nie = false ∧
+        Sorted R'' ∧ (∀ r ∈ R'', r.1 < size) ∧ (∀ lb, (∀ r ∈ R', lb < r.1) → ∀ r ∈ R'', lb < r.1) ∧
+        (∀ p x, x < size → colourAt R'' p x
+          = if x < e then colourAt (R'.map lostRun) p x else colourAt R' p x)) ∨
+      (∃ c R', R = (e, c) :: R' ∧ C = R ∧ nie = false) ∨
+      (∃ o c R', R = (o, c) :: R' ∧ e < o ∧ C = R ∧ nie = (lastCol L Colour.recved == Colour.flighting))) :
+    Sorted ((L.map toLost).take 1 ++ ((if nie = true then [(e, lastCol L Colour.recved)] else []) ++ C)) ∧
+    (∀ r ∈ (L.map toLost).take 1 ++ ((if nie = true then [(e, lastCol L Colour.recved)] else []) ++ C),
+      r.1 < size) ∧
+    (∀ lb, (∀ r ∈ L ++ R, lb < r.1) →
+      ∀ r ∈ (L.map toLost).take 1 ++ ((if nie = true then [(e, lastCol L Colour.recved)] else []) ++ C),
+        lb < r.1) ∧
+    ∀ p x, x < size →
+      colourAt ((L.map toLost).take 1 ++ ((if nie = true then [(e, lastCol L Colour.recved)] else []) ++ C)) p x
+        = if x < e then colourAt ((L ++ R).map lostRun) p x else colourAt (L ++ R) p x := by
+    rw [loss_sorted_append] at hsorted
+    obtain ⟨hsL, hsR, hLltR⟩ := hsorted
+    have hLleR : ∀ r ∈ L, ∀ s ∈ R, r.1 ≤ s.1 := fun r hr s hs => Nat.le_of_lt (hLltR r hr s hs)
+    have hLm : ∀ r ∈ L.map toLost, r.2 = Colour.lost := by
+      intro r hr
+      rw [List.mem_map] at hr
+      obtain ⟨r0, _, rfl⟩ := hr
+      rfl
+    -- common finishing step: from the un-drained list `L.map toLost ++ S'` to the result
+    have finish : ∀ (S' : List Run) (res : List Run),
+        (∀ p x, colourAt res p x = colourAt (L.map toLost ++ S') p x) →
+        Sorted res → (∀ r ∈ res, r ∈ L.map toLost ++ S') →
+        Sorted S' → (∀ r ∈ L, ∀ s ∈ S', r.1 < s.1) → (∀ s ∈ S', s.1 < size) →
+        (∀ lb, (∀ r ∈ R, lb < r.1) → (L = [] ∨ lb < e) → ∀ r ∈ S', lb < r.1) →
+        (∀ p x, x < size → ∀ q, (e ≤ x → q = if L = [] then p else Colour.lost) →
+          colourAt S' q x = if x < e then colourAt (R.map lostRun) q x else colourAt R (lastCol L p) x) →
+        Sorted res ∧ (∀ r ∈ res, r.1 < size) ∧
+        (∀ lb, (∀ r ∈ L ++ R, lb < r.1) → ∀ r ∈ res, lb < r.1) ∧
+        ∀ p x, x < size → colourAt res p x
+          = if x < e then colourAt ((L ++ R).map lostRun) p x else colourAt (L ++ R) p x := by
+      intro S' res hcol hsres hmem hsS hLS hSsize hlb hc
+      refine ⟨hsres, ?_, ?_, ?_⟩
+      · intro r hr
+        have := hmem r hr
+        rw [List.mem_append] at this
+        rcases this with h | h
+        · obtain ⟨r0, h0, h0'⟩ := mem_map_toLost h
+          rw [h0']; exact hsize r0 (by simp [h0])
+        · exact hSsize r h
+      · intro lb hlbh r hr
+        have := hmem r hr
+        rw [List.mem_append] at this
+        rcases this with h | h
+        · obtain ⟨r0, h0, h0'⟩ := mem_map_toLost h
+          rw [h0']; exact hlbh r0 (by simp [h0])
+        · refine hlb lb (fun r hr => hlbh r (by simp [hr])) ?_ r h
+          cases L with
+          | nil => exact Or.inl rfl
+          | cons r0 L =>
+            right
+            have h1 := hlbh r0 (by simp)
+            have h2 := (hL r0 (by simp)).1
+            omega
+      · intro p x hx
+        rw [hcol]
+        exact colour_reduce L R S' e hL hLleR (fun r hr s hs => Nat.le_of_lt (hLS r hr s hs)) p x (hc p x hx)
+    have sortedFull : ∀ S' : List Run, Sorted S' → (∀ r ∈ L, ∀ s ∈ S', r.1 < s.1) →
+        Sorted (L.map toLost ++ S') := by
+      intro S' h1 h2
+      rw [loss_sorted_append]
+      refine ⟨sorted_map_toLost hsL, h1, ?_⟩
+      intro a ha b hb
+      obtain ⟨r0, h0, h0'⟩ := mem_map_toLost ha
+      rw [h0']; exact h2 r0 h0 b hb
+    have finish1 : ∀ (S' : List Run),
+        Sorted S' → (∀ r ∈ L, ∀ s ∈ S', r.1 < s.1) → (∀ s ∈ S', s.1 < size) →
+        (∀ lb, (∀ r ∈ R, lb < r.1) → (L = [] ∨ lb < e) → ∀ r ∈ S', lb < r.1) →
+        (∀ p x, x < size → ∀ q, (e ≤ x → q = if L = [] then p else Colour.lost) →
+          colourAt S' q x = if x < e then colourAt (R.map lostRun) q x else colourAt R (lastCol L p) x) →
+        Sorted ((L.map toLost).take 1 ++ S') ∧ (∀ r ∈ (L.map toLost).take 1 ++ S', r.1 < size) ∧
+        (∀ lb, (∀ r ∈ L ++ R, lb < r.1) → ∀ r ∈ (L.map toLost).take 1 ++ S', lb < r.1) ∧
+        ∀ p x, x < size → colourAt ((L.map toLost).take 1 ++ S') p x
+          = if x < e then colourAt ((L ++ R).map lostRun) p x else colourAt (L ++ R) p x := by
+      intro S' hsS hLS hSsize hlb hc
+      obtain ⟨t1, t2, t3⟩ := take1_spec (L.map toLost) S' hLm (sortedFull S' hsS hLS)
+      exact finish S' _ t3 t1 t2 hsS hLS hSsize hlb hc
+    have hpreQ : (L = [] ∧ lastCol L Colour.recved = Colour.recved) ∨
+        (L ≠ [] ∧ (lastCol L Colour.recved = Colour.flighting ∨ lastCol L Colour.recved = Colour.lost)) := by
+      cases L with
+      | nil => exact Or.inl ⟨rfl, rfl⟩
+      | cons r L =>
+        right
+        refine ⟨by simp, ?_⟩
+        rw [lastCol_cons]
+        exact lastCol_prop (fun c => c = Colour.flighting ∨ c = Colour.lost) L r.2 (hL r (by simp)).2
+          (fun r' hr' => (hL r' (by simp [hr'])).2)
+    have hpreP : ∀ p, L ≠ [] → lastCol L p = lastCol L Colour.recved :=
+      fun p h => lastCol_of_ne_nil L p _ h
+    have hlenLm : (L.map toLost).length = L.length := List.length_map _
+    rcases hcase with ⟨hR, hC, hnie⟩ | ⟨o, R', R'', hR, hC, hoe, hnie, hsR'', hsz'', hlb'', hcol''⟩ |
+      ⟨c, R', hR, hC, hnie⟩ | ⟨o, c, R', hR, hoe, hC, hnie⟩
+    · subst hR hC hnie
+      apply finish1
+      · split <;> simp [Sorted]
+      · intro r hr s hs
+        split at hs
+        · simp at hs; subst hs; exact (hL r hr).1
+        · simp at hs
+      · intro s hs
+        split at hs
+        · rename_i hnie
+          simp at hs hnie; subst hs; exact hnie.1
+        · simp at hs
+      · intro lb _ hlb r hr
+        split at hr
+        · rename_i hnie
+          simp at hr; subst hr
+          rcases hlb with h | h
+          · rcases hpreQ with ⟨_, h2⟩ | ⟨h1, _⟩
+            · rw [h2] at hnie; simp at hnie
+            · exact absurd h h1
+          · exact h
+        · simp at hr
+      · intro p x hx q hq
+        by_cases hxe : x < e
+        · simp only [hxe, if_true, List.map_nil, colourAt]
+          split <;> simp [colourAt, hxe]
+        · have hq' := hq (by omega)
+          simp only [hxe, if_false, colourAt]
+          rcases hpreQ with ⟨h1, h2⟩ | ⟨h1, h2⟩
+          · subst h1
+            simp [lastCol_nil] at h2 hq' ⊢
+            simp [hq', colourAt]
+          · rw [hpreP p h1]
+            simp only [h1, if_false] at hq'
+            have hes : e < size := by omega
+            rcases h2 with h2 | h2
+            · simp [h2, hes, colourAt, hxe]
+            · simp [h2, colourAt, hq']
+    · subst hR hC hnie
+      have hsR' := (loss_sorted_cons.mp hsR).2
+      have hoR' := (loss_sorted_cons.mp hsR).1
+      apply finish1
+      · simp only [Bool.false_eq_true, if_false, List.nil_append]
+        rw [loss_sorted_cons]
+        exact ⟨hlb'' o hoR', hsR''⟩
+      · intro r hr s hs
+        simp only [Bool.false_eq_true, if_false, List.nil_append, List.mem_cons] at hs
+        rcases hs with rfl | hs
+        · exact hLltR r hr _ (by simp)
+        · exact hlb'' r.1 (fun r' hr' => hLltR r hr r' (by simp [hr'])) s hs
+      · intro s hs
+        simp only [Bool.false_eq_true, if_false, List.nil_append, List.mem_cons] at hs
+        rcases hs with rfl | hs
+        · exact hsize _ (by simp)
+        · exact hsz'' s hs
+      · intro lb hlb _ s hs
+        simp only [Bool.false_eq_true, if_false, List.nil_append, List.mem_cons] at hs
+        rcases hs with rfl | hs
+        · exact hlb _ (by simp)
+        · exact hlb'' lb (fun r' hr' => hlb r' (by simp [hr'])) s hs
+      · intro p x hx q _
+        simp only [Bool.false_eq_true, if_false, List.nil_append, colourAt, List.map_cons, lostRun, lostOf]
+        rw [hcol'' Colour.recved x hx]
+        by_cases h1 : x < o <;> by_cases h2 : x < e <;> simp [h1, h2]
+        omega
+    · subst hR hC hnie
+      have hRe : ∀ s ∈ (e, c) :: R', e ≤ s.1 := by
+        intro s hs
+        simp only [List.mem_cons] at hs
+        rcases hs with rfl | hs
+        · exact Nat.le_refl _
+        · exact Nat.le_of_lt ((loss_sorted_cons.mp hsR).1 s hs)
+      apply finish1
+      · simp only [Bool.false_eq_true, if_false, List.nil_append]; exact hsR
+      · simp only [Bool.false_eq_true, if_false, List.nil_append]; exact hLltR
+      · simp only [Bool.false_eq_true, if_false, List.nil_append]; exact fun s hs => hsize s (by simp [hs])
+      · simp only [Bool.false_eq_true, if_false, List.nil_append]; exact fun lb h _ r hr => h r hr
+      · simp only [Bool.false_eq_true, if_false, List.nil_append]
+        intro p x hx q _
+        by_cases hxe : x < e
+        · simp only [hxe, if_true]
+          rw [colourAt_lt_all _ q x (fun r hr => by have := hRe r hr; omega)]
+          rw [colourAt_lt_all _ q x (fun r hr => by
+            rw [List.mem_map] at hr
+            obtain ⟨r0, h0, rfl⟩ := hr
+            have := hRe r0 h0
+            show x < r0.1
+            omega)]
+        · simp [hxe, colourAt]
+    · subst C nie
+      have hsR2 : Sorted ((o, c) :: R') := by rw [← hR]; exact hsR
+      have hRdef : (o, c) :: R' = R := hR.symm
+      have hRe : ∀ s ∈ R, e < s.1 := by
+        intro s hs
+        rw [hR] at hs
+        simp only [List.mem_cons] at hs
+        rcases hs with rfl | hs
+        · exact hoe
+        · exact Nat.lt_trans hoe ((loss_sorted_cons.mp hsR2).1 s hs)
+      apply finish1
+      · split
+        · rw [List.singleton_append, loss_sorted_cons]
+          exact ⟨hRe, hsR⟩
+        · exact hsR
+      · intro r hr s hs
+        split at hs
+        · simp only [List.singleton_append, List.mem_cons] at hs
+          rcases hs with rfl | hs
+          · exact (hL r hr).1
+          · exact hLltR r hr s hs
+        · exact hLltR r hr s hs
+      · intro s hs
+        have hs' : s ∈ R → s.1 < size := fun h => hsize s (by simp [h])
+        split at hs
+        · simp only [List.singleton_append, List.mem_cons] at hs
+          rcases hs with rfl | hs
+          · have h1 := hRe (o, c) (by rw [← hRdef]; simp)
+            have h2 := hsize (o, c) (by rw [← hRdef]; simp)
+            simp at h1 h2 ⊢; omega
+          · exact hs' hs
+        · exact hs' hs
+      · intro lb hlb hlbe r hr
+        split at hr
+        · rename_i hnie
+          simp only [List.singleton_append, List.mem_cons] at hr
+          rcases hr with rfl | hr
+          · rcases hlbe with h | h
+            · rcases hpreQ with ⟨_, h2⟩ | ⟨h1, _⟩
+              · rw [h2] at hnie; simp at hnie
+              · exact absurd h h1
+            · exact h
+          · exact hlb r hr
+        · exact hlb r hr
+      · intro p x hx q hq
+        by_cases hxe : x < e
+        · simp only [hxe, if_true]
+          rw [colourAt_lt_all (R.map lostRun) q x (fun r hr => by
+            rw [List.mem_map] at hr
+            obtain ⟨r0, h0, rfl⟩ := hr
+            have := hRe r0 h0
+            show x < r0.1
+            omega)]
+          apply colourAt_lt_all
+          intro r hr
+          split at hr
+          · simp only [List.singleton_append, List.mem_cons] at hr
+            rcases hr with rfl | hr
+            · exact hxe
+            · have := hRe r hr; omega
+          · have := hRe r hr; omega
+        · have hq' := hq (by omega)
+          simp only [hxe, if_false]
+          rcases hpreQ with ⟨h1, h2⟩ | ⟨h1, h2⟩
+          · subst h1
+            simp only [if_true] at hq'
+            subst hq'
+            simp [lastCol_nil]
+          · rw [hpreP p h1]
+            simp only [h1, if_false] at hq'
+            subst hq'
+            rcases h2 with h2 | h2
+            · simp [h2, colourAt, hxe]
+            · simp [h2]
+
+
 theorem mayLostFrom_spec (size e : Nat) (he : e ≤ size) (fuel : Nat) :
     ∀ (P rest : List Run), rest.length < fuel → Sorted rest → (∀ r ∈ rest, r.1 < size) →
       (∀ r ∈ rest, r.1 < e → r.2 ≠ Colour.pending) →
@@ -490,43 +758,7 @@ theorem mayLostFrom_spec (size e : Nat) (he : e ≤ size) (fuel : Nat) :
       have hpost := mlfPost_spec P (L.map toLost) [] e (lastCol L Colour.recved) _ hn
       rw [hlenLm] at hpost
       refine ⟨_, hpost, ?_⟩
-      apply finish1
-      · split <;> simp [Sorted]
-      · intro r hr s hs
-        split at hs
-        · simp at hs; subst hs; exact (hL r hr).1
-        · simp at hs
-      · intro s hs
-        split at hs
-        · rename_i hnie
-          simp at hs hnie; subst hs; exact hnie.1
-        · simp at hs
-      · intro lb _ hlb r hr
-        split at hr
-        · rename_i hnie
-          simp at hr; subst hr
-          rcases hlb with h | h
-          · rcases hpreQ with ⟨_, h2⟩ | ⟨h1, _⟩
-            · rw [h2] at hnie; simp at hnie
-            · exact absurd h h1
-          · exact h
-        · simp at hr
-      · intro p x hx q hq
-        by_cases hxe : x < e
-        · simp only [hxe, if_true, List.map_nil, colourAt]
-          split <;> simp [colourAt, hxe]
-        · have hq' := hq (by omega)
-          simp only [hxe, if_false, colourAt]
-          rcases hpreQ with ⟨h1, h2⟩ | ⟨h1, h2⟩
-          · subst h1
-            simp [lastCol_nil] at h2 hq' ⊢
-            simp [hq', colourAt]
-          · rw [hpreP p h1]
-            simp only [h1, if_false] at hq'
-            have hes : e < size := by omega
-            rcases h2 with h2 | h2
-            · simp [h2, hes, colourAt, hxe]
-            · simp [h2, colourAt, hq']
+      exact loss_tail_ok size e he L [] [] _ hL (loss_sorted_append.mpr ⟨hsL, hsR, hLltR⟩) hsize (Or.inl ⟨rfl, rfl, rfl⟩)
     · -- a `Recved` run inside the range: recursive call
       subst hR
       rw [hscan]
@@ -547,30 +779,8 @@ theorem mayLostFrom_spec (size e : Nat) (he : e ≤ size) (fuel : Nat) :
         show (mayLostFrom fuel _ size _ e >>= fun runs2 => mlfPost runs2 P.length (P.length + L.length) e
           Colour.recved false) = _
         rw [hrec]; exact hpost), ?_⟩
-      apply finish1
-      · simp only [Bool.false_eq_true, if_false, List.nil_append]
-        rw [loss_sorted_cons]
-        exact ⟨hlb'' o hoR', hsR''⟩
-      · intro r hr s hs
-        simp only [Bool.false_eq_true, if_false, List.nil_append, List.mem_cons] at hs
-        rcases hs with rfl | hs
-        · exact hLltR r hr _ (by simp)
-        · exact hlb'' r.1 (fun r' hr' => hLltR r hr r' (by simp [hr'])) s hs
-      · intro s hs
-        simp only [Bool.false_eq_true, if_false, List.nil_append, List.mem_cons] at hs
-        rcases hs with rfl | hs
-        · exact hsize _ (by simp)
-        · exact hsz'' s hs
-      · intro lb hlb _ s hs
-        simp only [Bool.false_eq_true, if_false, List.nil_append, List.mem_cons] at hs
-        rcases hs with rfl | hs
-        · exact hlb _ (by simp)
-        · exact hlb'' lb (fun r' hr' => hlb r' (by simp [hr'])) s hs
-      · intro p x hx q _
-        simp only [Bool.false_eq_true, if_false, List.nil_append, colourAt, List.map_cons, lostRun, lostOf]
-        rw [hcol'' Colour.recved x hx]
-        by_cases h1 : x < o <;> by_cases h2 : x < e <;> simp [h1, h2]
-        omega
+      exact loss_tail_ok size e he L _ _ false hL (loss_sorted_append.mpr ⟨hsL, hsR, hLltR⟩) hsize
+        (Or.inr (Or.inl ⟨o, R', R'', rfl, rfl, hoe, rfl, hsR'', hsz'', hlb'', hcol''⟩))
     · -- a run starts exactly at the end of the range: merge with the `Lost` runs that follow
       subst hR
       rw [hscan]
@@ -634,71 +844,8 @@ theorem mayLostFrom_spec (size e : Nat) (he : e ≤ size) (fuel : Nat) :
       have hpost := mlfPost_spec P (L.map toLost) ((o, c) :: R') e (lastCol L Colour.recved) _ hn
       rw [hlenLm] at hpost
       refine ⟨_, hpost, ?_⟩
-      generalize hRdef : (o, c) :: R' = R at *
-      apply finish1
-      · split
-        · rw [List.singleton_append, loss_sorted_cons]
-          exact ⟨hRe, hsR⟩
-        · exact hsR
-      · intro r hr s hs
-        split at hs
-        · simp only [List.singleton_append, List.mem_cons] at hs
-          rcases hs with rfl | hs
-          · exact (hL r hr).1
-          · exact hLltR r hr s hs
-        · exact hLltR r hr s hs
-      · intro s hs
-        have hs' : s ∈ R → s.1 < size := fun h => hsize s (by simp [h])
-        split at hs
-        · simp only [List.singleton_append, List.mem_cons] at hs
-          rcases hs with rfl | hs
-          · have h1 := hRe (o, c) (by rw [← hRdef]; simp)
-            have h2 := hsize (o, c) (by rw [← hRdef]; simp)
-            simp at h1 h2 ⊢; omega
-          · exact hs' hs
-        · exact hs' hs
-      · intro lb hlb hlbe r hr
-        split at hr
-        · rename_i hnie
-          simp only [List.singleton_append, List.mem_cons] at hr
-          rcases hr with rfl | hr
-          · rcases hlbe with h | h
-            · rcases hpreQ with ⟨_, h2⟩ | ⟨h1, _⟩
-              · rw [h2] at hnie; simp at hnie
-              · exact absurd h h1
-            · exact h
-          · exact hlb r hr
-        · exact hlb r hr
-      · intro p x hx q hq
-        by_cases hxe : x < e
-        · simp only [hxe, if_true]
-          rw [colourAt_lt_all (R.map lostRun) q x (fun r hr => by
-            rw [List.mem_map] at hr
-            obtain ⟨r0, h0, rfl⟩ := hr
-            have := hRe r0 h0
-            show x < r0.1
-            omega)]
-          apply colourAt_lt_all
-          intro r hr
-          split at hr
-          · simp only [List.singleton_append, List.mem_cons] at hr
-            rcases hr with rfl | hr
-            · exact hxe
-            · have := hRe r hr; omega
-          · have := hRe r hr; omega
-        · have hq' := hq (by omega)
-          simp only [hxe, if_false]
-          rcases hpreQ with ⟨h1, h2⟩ | ⟨h1, h2⟩
-          · subst h1
-            simp only [if_true] at hq'
-            subst hq'
-            simp [lastCol_nil]
-          · rw [hpreP p h1]
-            simp only [h1, if_false] at hq'
-            subst hq'
-            rcases h2 with h2 | h2
-            · simp [h2, colourAt, hxe]
-            · simp [h2]
+      exact loss_tail_ok size e he L _ _ _ hL (loss_sorted_append.mpr ⟨hsL, hsR, hLltR⟩) hsize
+        (Or.inr (Or.inr (Or.inr ⟨o, c, R', rfl, hoe, rfl, rfl⟩)))
 
 /-! ### `may_lost_from` at the level of the abstraction function -/
 
